@@ -149,7 +149,10 @@ def battery():
             ("retry-codes", apis.retry_api(), "transport=grpc", apis.RETRY_CONFIGS[1]),
             ("selective", apis.samples_api(), "transport=grpc+rest", None),
             # one service polling three extended-operation services: a SET of services reaches the transport templates
-            ("extended-operations", apis.compute_api(), "transport=rest", None)]
+            ("extended-operations", apis.compute_api(), "transport=rest", None),
+            # a RELATIVE template directory is resolved against the installed gapic package, never against the working
+            # directory: one of the two working directories of the replay holds an unrelated `templates/` directory
+            ("relative-templates", apis.retry_api(), "python-gapic-templates=templates,transport=grpc", None)]
 
 
 def replay_request(label, seeds):
@@ -158,6 +161,10 @@ def replay_request(label, seeds):
             continue
         d = tempfile.mkdtemp(prefix="gapicverif-c10-")
         gen._SCRATCH.append(d)
+        if name == "relative-templates":
+            os.makedirs(os.path.join(d, "templates"))
+            with open(os.path.join(d, "templates", "NOTICE.txt.j2"), "w") as fh:
+                fh.write("an unrelated template directory of the caller's project\n")
         if retry is not None:
             import json
             p = os.path.join(d, "retry.json")
@@ -167,7 +174,7 @@ def replay_request(label, seeds):
         digests = {}
         outs = {}
         for k, seed in enumerate(seeds):
-            cwd = d if k % 2 == 0 else tempfile.gettempdir()
+            cwd = d if k % 2 == 0 else os.path.dirname(gen.__file__)
             out = run_generator(req, seed, cwd)
             digests[seed] = hashlib.sha256(out).hexdigest()[:16]
             outs[seed] = out
